@@ -137,7 +137,8 @@ pub fn gen_daub(rng: &mut Rng, tier: &Tier) -> Vec<Case> {
                 let mut it = Interp::default();
                 let l1 = format!("new 1 daub_analyze O={} T={}", o, t);
                 let l2 = format!("new 2 daub_synth O={} T={} src=1", o, t);
-                it.exec(&l1).unwrap();
+                let mut trace = Vec::new();
+                let mut alive = crate::gen::try_exec(&mut it, &l1, &mut trace).is_some();
                 let mut c = vec![l1, l2, "cfg 1".to_string(), "cfg 2".to_string()];
                 let len = 3 * o + 4;
                 for i in 0..len {
@@ -149,9 +150,14 @@ pub fn gen_daub(rng: &mut Rng, tier: &Tier) -> Vec<Case> {
                         _ => (rng.range(-1000, 1000) as f64) / 100.0,           // bounded random
                     };
                     let xs = fb(t, x);
-                    let out = it.exec(&format!("f 1 {}", xs)).unwrap();
+                    // the synthesis filter is fed what the real analysis filter answers; once that one has panicked
+                    // only the analysis side continues (and the run reports the panic)
+                    let out = if alive { crate::gen::try_exec(&mut it, &format!("f 1 {}", xs), &mut trace) } else { None };
                     c.push(format!("f 1 {}", xs));
-                    c.push(format!("f 2 {}", out));
+                    match out {
+                        Some(out) if out.split(' ').count() == 2 => c.push(format!("f 2 {}", out)),
+                        _ => alive = false,
+                    }
                 }
                 cases.push(c);
             }
